@@ -223,6 +223,32 @@ where
         Ok(())
     }
 
+    /// Delete the events of an event log that come after the
+    /// most recent event with the given commit hash.
+    ///
+    /// Commit hashes are not unique; byte-identical events have
+    /// the same hash in other event logs stored in the same table
+    /// and may occur more than once in an event log so the
+    /// deletion must be scoped to the owner and to the rows
+    /// that follow the target commit.
+    pub fn delete_after_commit(
+        &self,
+        log_type: EventLogType,
+        account_or_folder_id: i64,
+        commit_hash: &CommitHash,
+    ) -> Result<usize, SqlError> {
+        let table: EventTable = log_type.into();
+        let query = format!(
+            r#"DELETE FROM {table} WHERE {id}=?1 AND event_id > (
+                SELECT MAX(event_id) FROM {table}
+                WHERE {id}=?1 AND commit_hash=?2)"#,
+            table = table.as_str(),
+            id = table.id_column(),
+        );
+        let mut stmt = self.conn.prepare_cached(&query)?;
+        stmt.execute((account_or_folder_id, commit_hash.as_ref()))
+    }
+
     /// Insert events into an event log table.
     pub fn insert_events(
         &self,
